@@ -1832,17 +1832,18 @@ def denom_variants(k, tier):
             c.partial = None
             out.append(c)
         return out
-    # quick tier (budget): three lattice divisors for the 128-bit and scalar-backed types, one for the wider types; one
-    # broadcast construction and the different-divisor-per-lane obligation for the 128-bit types only.  The thorough tier
-    # runs the whole lattice, every broadcast and the per-lane obligation for every type.
+    # quick tier (budget): three lattice divisors for the scalar-backed types, one for the SIMD types (150-240 s each), one
+    # broadcast construction for the 128-bit types; the wider types' lattice obligations are thorough-only (quick_skip.json).
+    # The thorough tier runs the whole lattice, every broadcast and the different-divisor-per-lane obligation for every type.
     wide = t.W * t.bits > 128
-    qset = {3} if wide else {3, (1 << t.bits) - 1, 1}
+    simd = d['vec'] and t.W > 1
+    qset = {3} if simd else {3, (1 << t.bits) - 1, 1}
     for v in lat:
         if tier != 'quick' or v in qset:
             out.append(mk('d=%d' % v, ['%dull' % v]))
         if d['vec'] and d.get('broadcast') and (tier != 'quick' or (v == 10 and not wide)):
             out.append(mk('d=%d broadcast from scalar Denominator' % v, ['%dull' % v], via_broadcast=True))
-    if d['vec'] and t.W > 1 and (tier != 'quick' or not wide):
+    if simd and tier != 'quick':
         out.append(mk('different divisor per lane', ['%dull' % v for v in lat]))
     return out
 
